@@ -366,7 +366,13 @@ def execute(scn: dict) -> dict:
                     kw["progress_callback"] = _cb
                 if scn.get("with_token"):
                     kw["cancellation_token"] = sm.CancellationToken()
-                res = await sm.send_message(rr, ws, scn["method"], copy.deepcopy(scn["params"]), **kw)
+                p_in = copy.deepcopy(scn["params"])
+                try:
+                    res = await sm.send_message(rr, ws, scn["method"], p_in, **kw)
+                finally:
+                    if isinstance(p_in, dict):
+                        # the caller goes on using (and changing) its own dict; what was written must not change with it
+                        p_in["changed_by_caller_after_the_call"] = True
             else:
                 kwargs, _, _, _ = _helpers()[api]
                 res = await _helper_fn(api)(rr, ws, timeout=timeout, **kwargs)
